@@ -53,6 +53,12 @@ class ListSet:
     def __len__(self):
         return len(self.items)
 
+    def clear(self):
+        self.items.clear()
+
+    def copy(self):
+        return ListSet(self.items)
+
     def __contains__(self, x):
         for y in self.items:
             if beq(y, x):
